@@ -86,6 +86,10 @@ MODELS = {
                'row': ('row', HID, OUT, 'layers.2')},
     # GPT-NeoX style names keyed by the global pipeline index: the name of
     # one layer is a suffix of another's ('2.mlp.up' / '12.mlp.up')
+    # a single sharded layer: the per-shard contributions to the clip sum
+    # are not averaged out by other layers
+    'col1': {'col': ('col', IN, HID, 'layers.0')},
+    'row1': {'row': ('row', HID, OUT, 'layers.0')},
     'deep': {'col': ('col', IN, HID, '2.mlp.up'),
              'row': ('row', HID, IN, '2.mlp.down'),
              'col2': ('col', IN, HID, '12.mlp.up'),
@@ -236,8 +240,19 @@ class GptRank:
         one = kaisa.Config(**{**cfg.to_json(), 'model': 'mlp3', 'union': 1})
         x, y = kaisa.make_batch(one, self.seed, self.d, self.it, mb,
                                 torch.float32)
-        y = y[:, :OUT] if y.shape[1] >= OUT else torch.cat(
-            [y, y[:, :OUT - y.shape[1]]], 1)
+        lay = list(layout(cfg.gpt).values())
+        n_in, n_out = lay[0][1], lay[-1][2]
+        if x.shape[1] != n_in:
+            x = torch.cat([x] * (n_in // x.shape[1] + 1), 1)[:, :n_in]
+        x = x.contiguous()
+        if lay[0][0] == 'row':
+            # an input-parallel first layer receives its shard of the input
+            x = x.chunk(self.M, -1)[self.m].contiguous()
+        y = torch.cat([y] * (n_out // y.shape[1] + 1), 1)[:, :n_out]
+        y = y.contiguous()
+        if lay[-1][0] == 'col':
+            # an output-parallel last layer produces its shard of the output
+            y = y.chunk(self.M, -1)[self.m].contiguous()
         handles = []
         if caps is not None:
             def fwd_hook(key):
@@ -327,6 +342,18 @@ def execute(cfg: kaisa.Config, hist: list[dict[str, Any]], seed: int,
                     elif act == 'eval':
                         pid = gr.train(1, caps, pid, train=False)
                     elif act == 'step':
+                        cg = (cfg.gpt.get('craft_grads') or {}).get(i)
+                        if cg:
+                            # gradients chosen by the driver (any gradient
+                            # is a legal input of step()): the shards of a
+                            # crafted full gradient, same on all replicas
+                            with torch.no_grad():
+                                for ln, mod in gr.klayers.items():
+                                    full = cg.get(f'{ln}.weight')
+                                    if full is not None:
+                                        mod.weight.grad = shard(
+                                            f'{ln}.weight', full, gr.m, gr.M
+                                        ).clone().contiguous()
                         out['pre_grads'] = gr.named_grads()
                         gr.pre.step()
                         out['grads'] = gr.named_grads()
@@ -565,4 +592,53 @@ def replay(cfg: kaisa.Config, hist: list[dict[str, Any]], seed: int,
             out['kcase'] = gptdist.build_case(cfg, hist, ex)
         except Exception as e:  # noqa: BLE001
             out['kcase_error'] = f'{type(e).__name__}: {e}'[:200]
+    return out
+
+
+def craft_opposite_sign_grads(cfg: kaisa.Config, hist: list[dict[str, Any]],
+                              ex: dict[str, Any], seed: int,
+                              ) -> dict[int, dict[str, torch.Tensor]]:
+    """From a first execution (factors do not depend on the gradients handed
+    to step(): the harness never updates the weights) search, for every step
+    with existing factors, a full gradient D whose preconditioned image V has
+    a NEGATIVE inner product <V_s, D_s> on one model-parallel shard s (the
+    total <V, D> is always positive).  Bias-free single-layer models only."""
+    g = cfg.gpt
+    M = g['M']
+    lay = layout(g)
+    if len(lay) != 1 or M < 2:
+        return {}
+    (key, (kind, nin, nout, lname)), = lay.items()
+    if g.get('bias_col' if kind == 'col' else 'bias_row', True):
+        return {}
+    gen = torch.Generator().manual_seed(991 + seed)
+    out: dict[int, dict[str, torch.Tensor]] = {}
+    recs = ex['recs']
+    for i, rec in enumerate(hist):
+        if rec['act'] != 'step' or len(recs[0]) <= i:
+            continue
+        invw = recs[0][i]['facts'][lname]['inv']
+        A = recs[invw][i]['facts'][lname]['A']
+        G = recs[invw][i]['facts'][lname]['G']
+        if not isinstance(A, torch.Tensor) or not isinstance(G, torch.Tensor):
+            continue
+        A, G = A.double(), G.double()
+        lam = 0.01
+        da, qa = torch.linalg.eigh((A + A.t()) / 2)
+        dg, qg = torch.linalg.eigh((G + G.t()) / 2)
+        best, best_d = 0.0, None
+        for _ in range(1500):
+            D = torch.randn(nout, nin, generator=gen).double()
+            D = D * torch.exp(2 * torch.randn(nout, 1, generator=gen).double())
+            D = D * torch.exp(2 * torch.randn(1, nin, generator=gen).double())
+            V = qg @ ((qg.t() @ D @ qa) / (torch.outer(dg, da) + lam)) @ qa.t()
+            P = V * D
+            parts = [c.sum().item() for c in
+                     P.chunk(M, 0 if kind == 'col' else 1)]
+            tot = sum(parts)
+            score = min(parts) / max(abs(tot), 1e-30)
+            if score < best:
+                best, best_d = score, D
+        if best_d is not None and best < -0.05:
+            out[i] = {f'{key}.weight': best_d.float()}
     return out
